@@ -983,6 +983,35 @@ def lang2():
         lf = Func('f', [('d', ty)], ty, [Return(Bin('+', Bin('+', p, p), Bin('-', Var('k', ty), d)))])
         outer = Func('outer', [('p', ty), ('q', ty)], ty, [Let('k', ty, Bin('+', q, Lit(1, ty))), FuncLitLet('f', lf), Return(Call('f', [q], ty))])
         out.append(Template('lang/closure_param_and_local/%s' % tn, fn2(body, extra=[outer]), family='lang'))
+    # a parameter that is assigned inside a loop whose condition reads it (the condition is lowered before the first
+    # assignment), and a parameter assigned before a loop
+    for ty in (I64, I32):
+        n, c = Var('n', ty), Var('c', ty)
+        cd = Func('cd', [('n', ty)], ty, [Let('c', ty, Lit(0, ty)),
+                                           While(Cmp('>', n, Lit(0, ty)), [Assign(n, Bin('-', n, Lit(1, ty))), Assign(c, Bin('+', c, Lit(1, ty))), If(Cmp('>', c, Lit(4, ty)), [Return(Lit(-1, ty))])]),
+                                           Return(Bin('+', c, n))])
+        body = [Return(Cast(Call('cd', [Cast(X, ty)], ty), I64))]
+        out.append(Template('lang/param_loop_countdown/%s' % ty.name, fn1(body, extra=[cd]), family='lang', unroll=8))
+        up = Func('up', [('n', ty), ('k', ty)], ty, [If(Cmp('>', Var('k', ty), Lit(0, ty)), [Assign(n, Bin('+', n, Var('k', ty)))]), Let('r', ty, n), OpAssign(n, '+', Lit(1, ty)), Return(Bin('+', Var('r', ty), n))])
+        body = [Return(Cast(Call('up', [Cast(X, ty), Cast(Y, ty)], ty), I64))]
+        out.append(Template('lang/param_reassigned/%s' % ty.name, fn2(body, extra=[up]), family='lang'))
+    # compound assignment whose right operand is a literal (typed i32 by default) or a narrower variable
+    for ty in (I64, U64, I8, U16):
+        v = Var('v', ty)
+        body = [Let('v', ty, Cast(X, ty)), OpAssign(v, '+', Lit(1, ty)), OpAssign(v, '-', Lit(3, ty)), OpAssign(v, '*', Lit(2, ty)), Return(Cast(v, I64))]
+        out.append(Template('lang/compound_literal/%s' % ty.name, fn1(body), family='lang'))
+    AT2 = ArrT(2, I64)
+    body = [Let('a', AT2, ArrLit(AT2, [X, Y])), OpAssign(Index(Var('a', AT2), Lit(1, I32)), '+', Lit(5, I64)), Return(Bin('-', Index(Var('a', AT2), Lit(1, I32)), Index(Var('a', AT2), Lit(0, I32))))]
+    out.append(Template('lang/compound_literal_element/i64', fn2(body), family='lang'))
+    # by-value fixed array and struct parameters written in the callee: the caller's value is unchanged
+    AT3 = ArrT(3, I32)
+    aa = Var('a', AT3)
+    poke = Func('poke', [('a', AT3), ('v', I32)], I32, [Assign(Index(aa, Lit(0, I32)), Var('v', I32)), Assign(Index(aa, Lit(2, I32)), Bin('+', Var('v', I32), Lit(1, I32))), Return(Bin('+', Index(aa, Lit(0, I32)), Index(aa, Lit(2, I32))))])
+    xs = Var('xs', AT3)
+    body = [Let('xs', AT3, ArrLit(AT3, [Cast(X, I32), Lit(2, I32), Lit(3, I32)])), Let('r', I32, Call('poke', [xs, Cast(Y, I32)], I32)),
+            If(Cmp('!=', Index(xs, Lit(0, I32)), Cast(X, I32)), [Return(Lit(-7, I64))]), If(Cmp('!=', Index(xs, Lit(2, I32)), Lit(3, I32)), [Return(Lit(-8, I64))]),
+            Return(Cast(Var('r', I32), I64))]
+    out.append(Template('lang/array_param_written/i32', fn2(body, extra=[poke]), family='lang'))
     # value receiver: the method works on a copy
     CT = StructT('Cnt', [('V', I32), ('W', I64)])
     bump = Func('bump', [], I32, [Assign(Field(Var('c', CT), 'V'), Bin('+', Field(Var('c', CT), 'V'), Lit(1, I32))), Return(Field(Var('c', CT), 'V'))], recv=('c', CT))
